@@ -6,6 +6,7 @@ EXTENDS TraceCommon, FiniteSets, Integers
 
 VARIABLES sent, rcvd, closed, eof,
           first,   \* [c -> direction whose source peer closed first, "" if nobody closed yet]
+          abort,   \* [c -> the first close was abortive (reset): TCP itself does not promise delivery then]
           l
 Conns == FieldSet("Open", "c")
 Dirs == {"up", "down"}
@@ -13,32 +14,34 @@ Other(d) == IF d = "up" THEN "down" ELSE "up"
 Is(e) == l <= TLen /\ Trace[l].ev = e
 E == Trace[l]
 Step == l' = l + 1 /\ Mark(l)
-bv == <<sent, rcvd, closed, eof, first>>
+bv == <<sent, rcvd, closed, eof, first, abort>>
+NoAbort == [c \in Conns |-> FALSE]
 None == [c \in Conns |-> ""]
 Zero == [c \in Conns |-> [d \in Dirs |-> 0]]
 No == [c \in Conns |-> [d \in Dirs |-> FALSE]]
 
-TInit == sent = Zero /\ rcvd = Zero /\ closed = No /\ eof = No /\ first = None /\ l = 1 /\ HWMInit
-TReset == Is("Reset") /\ sent' = Zero /\ rcvd' = Zero /\ closed' = No /\ eof' = No /\ first' = None
+TInit == sent = Zero /\ rcvd = Zero /\ closed = No /\ eof = No /\ first = None /\ abort = NoAbort /\ l = 1 /\ HWMInit
+TReset == Is("Reset") /\ sent' = Zero /\ rcvd' = Zero /\ closed' = No /\ eof' = No /\ first' = None /\ abort' = NoAbort
                /\ Step
 TOpen == Is("Open") /\ UNCHANGED bv
                /\ Step
 \* the source peer of direction d is about to write n bytes
-TWr == Is("Wr") /\ ~closed[E.c][E.d] /\ sent' = [sent EXCEPT ![E.c][E.d] = @ + E.n] /\ UNCHANGED <<rcvd, closed, eof, first>>
+TWr == Is("Wr") /\ ~closed[E.c][E.d] /\ sent' = [sent EXCEPT ![E.c][E.d] = @ + E.n] /\ UNCHANGED <<rcvd, closed, eof, first, abort>>
                /\ Step
 \* the far peer read n bytes: the next n bytes of the stream, unmodified, never more than was written
 TRd == Is("Rd") /\ E.ok /\ rcvd[E.c][E.d] + E.n <= sent[E.c][E.d]
-       /\ rcvd' = [rcvd EXCEPT ![E.c][E.d] = @ + E.n] /\ UNCHANGED <<sent, closed, eof, first>>
+       /\ rcvd' = [rcvd EXCEPT ![E.c][E.d] = @ + E.n] /\ UNCHANGED <<sent, closed, eof, first, abort>>
                /\ Step
 TPeerClose == Is("PeerClose") /\ closed' = [closed EXCEPT ![E.c][E.d] = TRUE]
-              /\ first' = [first EXCEPT ![E.c] = IF @ = "" THEN E.d ELSE @] /\ UNCHANGED <<sent, rcvd, eof>>
+              /\ first' = [first EXCEPT ![E.c] = IF @ = "" THEN E.d ELSE @]
+              /\ abort' = [abort EXCEPT ![E.c] = IF first[E.c] = "" THEN E.abortive ELSE @] /\ UNCHANGED <<sent, rcvd, eof>>
                /\ Step
 \* the far peer of direction d observed end-of-stream: only after somebody closed, and if the source
 \* of this direction was the (first) peer to close, only after everything it had sent was received.
 \* (Data still travelling TOWARDS a peer that has closed is not covered by the property.)
 TPeerEOF == Is("PeerEOF") /\ (closed[E.c][E.d] \/ closed[E.c][Other(E.d)])
-            /\ (first[E.c] = E.d => rcvd[E.c][E.d] = sent[E.c][E.d]) /\ E.total = rcvd[E.c][E.d]
-            /\ eof' = [eof EXCEPT ![E.c][E.d] = TRUE] /\ UNCHANGED <<sent, rcvd, closed, first>>
+            /\ ((first[E.c] = E.d /\ ~abort[E.c]) => rcvd[E.c][E.d] = sent[E.c][E.d]) /\ E.total = rcvd[E.c][E.d]
+            /\ eof' = [eof EXCEPT ![E.c][E.d] = TRUE] /\ UNCHANGED <<sent, rcvd, closed, first, abort>>
                /\ Step
 \* a plain HTTP request sent to the bridge backend reached the backend port unchanged and its answer came back
 THttp == Is("Http") /\ E.ok /\ UNCHANGED bv
@@ -47,7 +50,7 @@ THttp == Is("Http") /\ E.ok /\ UNCHANGED bv
 \* and the bridge holds no connection to the TCP server any more once all clients are gone
 TFinal == Is("Final") /\ UNCHANGED bv
           /\ (E.judge_close => \A c \in Conns : \A d \in Dirs : first[c] = d => eof[c][d])
-          /\ (\A c \in Conns : \A d \in Dirs : (first[c] = "" \/ first[c] = d) => rcvd[c][d] = sent[c][d])
+          /\ (\A c \in Conns : \A d \in Dirs : ((first[c] = "" \/ first[c] = d) /\ ~abort[c]) => rcvd[c][d] = sent[c][d])
           /\ (E.judge_close => E.server_open = 0)
                /\ Step
 TNext == TReset \/ TOpen \/ TWr \/ TRd \/ TPeerClose \/ TPeerEOF \/ THttp \/ TFinal
